@@ -1,200 +1,9 @@
-// Package vstore holds the chunk-store level monitors (C01, C02, C03, C04, C05, C07, C10, C41, C42).
+// Package vstore holds the chunk-store level monitors (C01, C03, C04, C05, C41).
 package vstore
 
-import (
-	"bytes"
-	"context"
-	"encoding/binary"
-	"fmt"
-	"math/rand"
-	"os"
-	"path/filepath"
-	"sort"
-
-	"github.com/dolthub/dolt/go/store/chunks"
-	"github.com/dolthub/dolt/go/store/constants"
-	"github.com/dolthub/dolt/go/store/hash"
-	"github.com/dolthub/dolt/go/store/nbs"
-)
+import "context"
 
 var bg = context.Background()
-
-// ---- self-describing chunks (DESIGN §3.2) -------------------------------------------------------
-// payload = "VR" | n(uint16) | n*20 address bytes | body. The getAddrs curry handed to Put decodes exactly
-// this, so the monitor can compute reachability closures independently of Dolt's own walkers.
-
-func encodeChunkData(refs []hash.Hash, body []byte) []byte {
-	b := make([]byte, 0, 4+20*len(refs)+len(body))
-	b = append(b, 'V', 'R')
-	b = binary.BigEndian.AppendUint16(b, uint16(len(refs)))
-	for _, r := range refs {
-		b = append(b, r[:]...)
-	}
-	return append(b, body...)
-}
-
-func decodeRefs(data []byte) []hash.Hash {
-	if len(data) < 4 || data[0] != 'V' || data[1] != 'R' {
-		return nil
-	}
-	n := int(binary.BigEndian.Uint16(data[2:4]))
-	if len(data) < 4+20*n {
-		return nil
-	}
-	out := make([]hash.Hash, n)
-	for i := 0; i < n; i++ {
-		copy(out[i][:], data[4+20*i:])
-	}
-	return out
-}
-
-func getAddrsCurry(c chunks.Chunk) chunks.InsertAddrsCb {
-	return func(ctx context.Context, addrs hash.HashSet, _ chunks.PendingRefExists) error {
-		for _, r := range decodeRefs(c.Data()) {
-			addrs.Insert(r)
-		}
-		return nil
-	}
-}
-
-func getAddrs(c chunks.Chunk, cb func(hash.Hash) error) error {
-	for _, r := range decodeRefs(c.Data()) {
-		if err := cb(r); err != nil {
-			return err
-		}
-	}
-	return nil
-}
-
-// body generators: empty, tiny, compressible, incompressible
-func genBody(r *rand.Rand, maxLen int) []byte {
-	switch r.Intn(6) {
-	case 0:
-		return nil
-	case 1:
-		return []byte{byte(r.Intn(256))}
-	case 2:
-		n := 1 + r.Intn(maxLen)
-		return bytes.Repeat([]byte{byte('a' + r.Intn(3))}, n)
-	default:
-		n := 1 + r.Intn(maxLen)
-		if r.Intn(4) == 0 {
-			n = 1 + r.Intn(64)
-		}
-		b := make([]byte, n)
-		r.Read(b)
-		return b
-	}
-}
-
-// ---- chunk model (DESIGN §3.1) ------------------------------------------------------------------
-
-type model struct {
-	data   map[hash.Hash][]byte
-	forged map[hash.Hash]bool
-	order  []hash.Hash
-}
-
-func newModel() *model { return &model{data: map[hash.Hash][]byte{}, forged: map[hash.Hash]bool{}} }
-
-func (m *model) add(c chunks.Chunk, forged bool) {
-	h := c.Hash()
-	if _, ok := m.data[h]; !ok {
-		m.order = append(m.order, h)
-	}
-	m.data[h] = append([]byte(nil), c.Data()...)
-	m.forged[h] = forged
-}
-
-func (m *model) pick(r *rand.Rand) (hash.Hash, bool) {
-	if len(m.order) == 0 {
-		return hash.Hash{}, false
-	}
-	return m.order[r.Intn(len(m.order))], true
-}
-
-// closure computes the set reachable from root through the self-describing encoding.
-func (m *model) closure(root hash.Hash) (hash.HashSet, []hash.Hash) {
-	seen := hash.NewHashSet()
-	var missing []hash.Hash
-	stack := []hash.Hash{root}
-	for len(stack) > 0 {
-		h := stack[len(stack)-1]
-		stack = stack[:len(stack)-1]
-		if seen.Has(h) {
-			continue
-		}
-		seen.Insert(h)
-		d, ok := m.data[h]
-		if !ok {
-			missing = append(missing, h)
-			continue
-		}
-		stack = append(stack, decodeRefs(d)...)
-	}
-	return seen, missing
-}
-
-// ---- address forging ----------------------------------------------------------------------------
-
-// neighbours returns addresses adjacent to h in every sense the index structures care about: same
-// 8-byte prefix / different suffix, prefix +-1, last byte +-1.
-func neighbours(h hash.Hash) []hash.Hash {
-	var out []hash.Hash
-	a := h
-	a[19] ^= 1
-	out = append(out, a)
-	b := h
-	b[8] ^= 0x80
-	out = append(out, b)
-	c := h
-	c[12]++
-	out = append(out, c)
-	p := binary.BigEndian.Uint64(h[:8])
-	d := h
-	binary.BigEndian.PutUint64(d[:8], p+1)
-	out = append(out, d)
-	e := h
-	binary.BigEndian.PutUint64(e[:8], p-1)
-	out = append(out, e)
-	return out
-}
-
-// forgeFamily returns n distinct addresses sharing one 8-byte prefix.
-func forgeFamily(r *rand.Rand, n int) []hash.Hash {
-	var base hash.Hash
-	r.Read(base[:])
-	switch r.Intn(6) {
-	case 0:
-		for i := 0; i < 8; i++ {
-			base[i] = 0
-		}
-	case 1:
-		for i := 0; i < 8; i++ {
-			base[i] = 0xff
-		}
-	}
-	out := make([]hash.Hash, 0, n)
-	seen := map[hash.Hash]bool{}
-	for len(out) < n {
-		h := base
-		switch r.Intn(3) {
-		case 0:
-			h[19] = byte(len(out))
-		case 1:
-			h[8] = byte(r.Intn(256))
-		default:
-			r.Read(h[8:])
-		}
-		if !seen[h] {
-			seen[h] = true
-			out = append(out, h)
-		}
-	}
-	return out
-}
-
-// ---- stores -------------------------------------------------------------------------------------
 
 type storeKind string
 
@@ -204,46 +13,3 @@ const (
 	kindJournal storeKind = "journal"
 	kindGen     storeKind = "generational"
 )
-
-type compressedGetter interface {
-	GetManyCompressed(ctx context.Context, hashes hash.HashSet, found func(context.Context, nbs.ToChunker)) error
-}
-
-type iterAll interface {
-	IterateAllChunks(ctx context.Context, cb func(chunk chunks.Chunk)) error
-	Count(ctx context.Context) (uint32, error)
-}
-
-func quota() nbs.MemoryQuotaProvider { return nbs.NewUnlimitedMemQuotaProvider() }
-
-func openLocal(dir string, memTable uint64) (*nbs.NomsBlockStore, error) {
-	return nbs.NewLocalStore(bg, constants.FormatDoltString, dir, memTable, quota(), false)
-}
-
-func openJournal(dir string) (*nbs.NomsBlockStore, error) {
-	return nbs.NewLocalJournalingStore(bg, constants.FormatDoltString, dir, quota(), false, func(error) {})
-}
-
-// sortedHashes gives deterministic iteration order.
-func sortedHashes(s hash.HashSet) []hash.Hash {
-	out := make([]hash.Hash, 0, len(s))
-	for h := range s {
-		out = append(out, h)
-	}
-	sort.Slice(out, func(i, j int) bool { return bytes.Compare(out[i][:], out[j][:]) < 0 })
-	return out
-}
-
-func short(h hash.Hash) string { return h.String()[:10] }
-
-func dirListing(dir string) []string {
-	var out []string
-	filepath.Walk(dir, func(p string, info os.FileInfo, err error) error {
-		if err == nil && !info.IsDir() {
-			rel, _ := filepath.Rel(dir, p)
-			out = append(out, fmt.Sprintf("%s:%d", rel, info.Size()))
-		}
-		return nil
-	})
-	return out
-}
